@@ -486,21 +486,22 @@ func (f Index) Last(prefix []byte) (i Item, err error) {
 	// since database iterator Seek seeks to the
 	// next key if the key that it seeks to is not found
 	// and by getting the previous key, the last one for the
-	// actual prefix is found
-	nextPrefix := incByteSlice(prefix)
-	l := len(prefix)
-
-	if l > 0 && nextPrefix != nil {
+	// actual prefix is found. The bound is computed on the
+	// complete prefix (index id included), so that the cursor
+	// never starts from a key of another index, and truncated
+	// after the incremented byte, so that no shorter key lies
+	// between the keys with the prefix and the bound.
+	totalPrefix := append(append(make([]byte, 0, len(f.prefix)+len(prefix)), f.prefix...), prefix...)
+	if nextPrefix := bytesIncrement(totalPrefix); nextPrefix != nil {
 		it.Seek(driver.Key{
 			Prefix: indexKeyPrefixLength,
-			Data:   append(f.prefix, nextPrefix...),
+			Data:   nextPrefix,
 		})
 		it.Prev()
 	} else {
 		it.Last()
 	}
 
-	totalPrefix := append(f.prefix, prefix...)
 	return f.itemFromIterator(it, totalPrefix)
 }
 
